@@ -21,6 +21,22 @@ TEXT = {
          "6 C05", "Lean 4 proof over hand-written model + differential correspondence (changes outside sites)"),
 }
 
+CLI_NOTE = " The loop model is parametric in the per-file outcome; the tie feeds it outcomes observed in solo --print-only runs of the real binary and compares its prediction with the grouped run in every mode (disk digest, stdout, stderr, exit)."
+TEXT.update({
+ "C06": ("Lean theorems on the CLI loop model: an unmatched file yields no write, no diff, no description, echo iff --print-only; all unmatched => exit 0; API returns input." + CLI_NOTE,
+         "6 C06", "Lean 4 proof over CLI loop model + black-box correspondence with the built binary"),
+ "C07": ("Lean theorems: the formatting tail (format, imports.Process or re-parse) returns success only for text that parses, in every flag combination; only checked bytes are emitted." + CLI_NOTE + " Every emitted content is additionally parsed with go/parser.",
+         "6 C07", "Lean 4 proof over CLI loop model + black-box correspondence + go/parser oracle on emitted content"),
+ "C12": ("Lean theorems: --diff/--print-only imply no write for all inputs; written = printed = diff-applied bytes; descriptions only for patched files." + CLI_NOTE,
+         "6 C12", "Lean 4 proof over CLI loop model + black-box correspondence (disk digest, mode agreement)"),
+ "C14": ("Lean theorems: effects of a run are the concatenation of per-file effects (file independence), API is a function of (patch, bytes)." + CLI_NOTE + " Arguments are permuted/repeated; API repeated and concurrent Apply compared. Partial: real preemption and FileSet atomicity are not modelled.",
+         "6 C14", "Lean 4 proof over CLI loop model + black-box grouped-vs-solo correspondence + API repetition"),
+ "C16": ("Lean theorems: every failing file contributes an error and exit 1 wherever it sits; exit 0 implies all files processed; the temp-file+rename write is atomic at every fault/crash point (and the former in-place write is refuted)." + CLI_NOTE + " Faults enumerated: unparseable source, rewrite error, unparseable result, missing path/patch, unreadable target, RLIMIT_FSIZE at several byte counts.",
+         "6 C16", "Lean 4 proof over CLI loop + write model + fault enumeration against the built binary"),
+ "C18": ("Lean theorems: with the flag a generated file has no effect; non-generated files and flag-off runs are unaffected; marker predicate (line split, prefix/suffix, before package) with near-miss spellings decided in Lean." + CLI_NOTE + " The header-shape table is enumerated exhaustively.",
+         "6 C18", "Lean 4 proof over CLI loop + generated-marker predicate + exhaustive header table against the binary"),
+})
+
 REASONS = {}
 
 def main():
